@@ -25,7 +25,7 @@ def run(ctx):
         ctx.violation("proof-broken", {"theorem": "props/C03.v", "log": log[-3000:]}, "props/C03.v no longer checks", no_input=True)
         return
     lib.coq_make(["theories/Search.vo", "theories/Wp.vo"])
-    n_prog = ctx.pick(40, 400)
+    n_prog = ctx.pick(52, 400)
     depth = ctx.pick(3, 5)
     progs = lib.replay_programs(ctx) or list(gen.corpus())
     cont_texts = set()
